@@ -69,6 +69,7 @@ def check_idl(idl, che):
     """
 
     missing = []
+    miss_str = ''
     for c in che:
         if c not in idl:
             missing.append(c)
